@@ -51,7 +51,8 @@ prop("C03",
      unit_ops={"metapack"},
      assumptions=["numbers are classified and valued by Spec/Num.v (decimal value, round half even); its agreement with Rust's parser is C07's subject"])
 prop("C06",
-     rule="generated documents (duplicates allowed): to_string / to_string_pretty / Display / to_vec of the parsed DOM; the text must denote the same tree as the source (dump equality incl. float bits, order, duplicates), be exactly the model's canonical compact / pretty form of its own parse (format_string spec escaper, separators, indentation), re-serialize to itself; raw-number mode reproduces every literal verbatim",
+     feature_builds=["sort_keys", "arbitrary_precision"],
+     rule="three builds of the harness (default, sort_keys, arbitrary_precision): generated documents (duplicates allowed): to_string / to_string_pretty / Display / to_vec of the parsed DOM; the text must denote the same tree as the source (dump equality incl. float bits, order, duplicates), be exactly the model's canonical compact / pretty form of its own parse (format_string spec escaper, separators, indentation), re-serialize to itself; raw-number mode reproduces every literal verbatim",
      assumptions=["ryu/itoa print a number that parses back to the same value (checked per case through the dump, not proved)"])
 prop("C13",
      rule="generated duplicate-free documents x up to 5 sub-values reached by get, plus every scalar literal directly: accessor string (type, bool, number class+bits, decoded string, raw number, is_* flags) of LazyValue (from get / serde / clone) and OwnedLazyValue (from LazyValue / serde / clone / to_lazyvalue) compared with the accessors of the reference parse of the raw text; verbatim serialization; Value::try_from; owned-lazy views walked; one mutation (push / replace / take) of an owned-lazy array with the clone taken before it",
@@ -166,6 +167,22 @@ def run_correspondence(pid, P, tier, seed, work, harness, run_model, load_tsv, k
             d[1] += 1
             continue
         mism.append(case)
+    # feature builds of the harness (sort_keys, arbitrary_precision): the same property run in each
+    for feat in P.get("feature_builds", []):
+        fh = harness.replace("/target/", "/target-%s/" % feat)
+        fdir = os.path.join(work, "feature-" + feat)
+        pf = subprocess.run([fh, "run", pid, tier, str(seed), fdir], stdout=subprocess.PIPE, stderr=subprocess.STDOUT, timeout=3400, text=True, errors="replace")
+        if pf.returncode != 0:
+            mism.append({"id": feat, "op": "process", "args": [feat], "impl": "harness (%s) exited %d" % (feat, pf.returncode), "model": "", "kind": "api"})
+            continue
+        rc2, err2 = run_model(os.path.join(fdir, "cases.tsv"), os.path.join(fdir, "model.tsv"))
+        fi, fm, fc = load_tsv(os.path.join(fdir, "impl.tsv")), load_tsv(os.path.join(fdir, "model.tsv")), load_tsv(os.path.join(fdir, "cases.tsv"))
+        for i, want in fi.items():
+            if fm.get(i) != want:
+                parts = fc.get(i, "").split("\t")
+                mism.append({"id": i, "op": parts[0], "args": parts[1:], "impl": want, "model": fm.get(i, "(missing)"), "seed": seed, "tier": tier, "kind": "api", "feature_build": feat})
+        stats.setdefault("stats", {})["cases in the %s build" % feat] = len(fi)
+        stats["evaluations"] = stats.get("evaluations", 0) + len(fi)
     # C17: the same generated suites through the second build; every result line must be identical
     if P.get("cross_build"):
         base = harness.replace("/target/", "/target-baseline/")
